@@ -13,6 +13,8 @@ import (
 	"os/exec"
 	"path/filepath"
 	"runtime"
+	rtdebug "runtime/debug"
+	"runtime/pprof"
 	"sort"
 	"strconv"
 	"strings"
@@ -51,6 +53,7 @@ type Plan struct {
 	Outside     []string  `json:"outside_bounds"`
 	InitExtra   []string  `json:"init_extra"`
 	SitePrefix  string    `json:"site_prefix"`
+	Logic       string    `json:"logic"`
 }
 
 type KnownFinding struct {
@@ -107,6 +110,12 @@ func cmdCheck(args []string) int {
 	if s := os.Getenv("VERIF_SEED"); s != "" {
 		seed, _ = strconv.Atoi(s)
 	}
+	rtdebug.SetGCPercent(1000) // the interpreter allocates heavily and memory is plentiful
+	if pf := os.Getenv("SYMGO_CPUPROFILE"); pf != "" {
+		f, _ := os.Create(pf)
+		pprof.StartCPUProfile(f)
+		defer pprof.StopCPUProfile()
+	}
 	t0 := time.Now()
 	data, err := os.ReadFile(*planPath)
 	if err != nil {
@@ -119,6 +128,7 @@ func cmdCheck(args []string) int {
 		return 2
 	}
 	initExtra = plan.InitExtra
+	solverLogic = plan.Logic
 
 	// load every package named by the plan
 	pkgSet := map[string]bool{}
